@@ -21,8 +21,15 @@ code points; paths: components joined by `/`, a component = code points joined b
                                                  scan_directory_files of each                              → result enum | `outside`
   `scan <files>`                                 SharesManager.scan()                                      → `<uploads>`
   `show`                                         → `<uploads>`
+  `begin <k> <method|abort|requeue> <cancel|notify>`  the call made and suspended while it holds the upload's state lock
+                                                 → `<suspended|changed|refused|waiting|no-such-upload>|<uploads>`
+  `end <k>`                                      the suspended call goes on, the waiting calls follow
+                                                 → `ended:<c|r per call of the user / the task, in order>|<uploads>` | `not-in-flight|<uploads>`
+with a state lock held: `meth` / `abort` / `requeue` → `waiting|<uploads>`, `cycle` → `busy|<uploads>` while the job waits,
+`queue` / `treq` naming that upload → `reply=busy|<uploads>`.
 Lists of users / blocked entries must be strictly increasing (canonical form of the Python set / dict), else `bad-op`.
-uploads = `flag=<0|1>|` then `<user>:<path cps>:<STATE>:<abort reason|->` per upload, in list order.
+uploads = `flag=<0|1>|job=<0|1>|` (shares-changed flag, `_management_job` suspended in `manage_shares_changed`) then
+`<user>:<path cps>:<STATE>:<abort reason|->` per upload, in list order.
 -/
 open AioslskVerif AioslskVerif.Shares AioslskVerif.Entitle AioslskVerif.Transfer
 
@@ -114,7 +121,7 @@ def showReason : Option Reason → String
   | some r => r.name
 
 def showUploads (s : S) : String :=
-  s!"flag={if s.sharesChanged then 1 else 0}|" ++
+  s!"flag={if s.sharesChanged then 1 else 0}|job={if jobWaiting s.flights then 1 else 0}|" ++
     " ".intercalate (s.xs.map fun x => s!"{x.user}:{showCps x.path}:{x.state.name}:{showReason x.reason}")
 
 def showObs (s : S) : Obs → String
@@ -133,6 +140,11 @@ def showObs (s : S) : Obs → String
   | .changed false => s!"refused|{showUploads s}"
   | .noSuchUpload => s!"no-such-upload|{showUploads s}"
   | .outside => "outside"
+  | .waiting => s!"waiting|{showUploads s}"
+  | .suspended => s!"suspended|{showUploads s}"
+  | .busy => s!"busy|{showUploads s}"
+  | .ended rs => s!"ended:{",".intercalate (rs.map fun b => if b then "c" else "r")}|{showUploads s}"
+  | .notInFlight => s!"not-in-flight|{showUploads s}"
 
 def doStep (d : DSt) (op : Op) : DSt × String :=
   let r := step d.s op
@@ -154,6 +166,15 @@ def doSearch (s : S) (u : Nat) (q : List Nat) : String :=
 def taskMeth : String → Option Meth
   | "initialize" => some .initialize | "start_transferring" => some .start | "complete" => some .complete
   | "fail" => some .fail | "pause" => some .pause | _ => none
+
+/-- the calls the harness can make: a task method / `pause`, the user's abort, the user's re-queue -/
+def userCall : String → Option Call
+  | "abort" => some { m := .abort, r := some .requested }
+  | "requeue" => some { m := .queue }
+  | m => (taskMeth m).map fun m => { m := m }
+
+def parsePhase : String → Option Phase
+  | "cancel" => some .cancelling | "notify" => some .notifying | _ => none
 
 def handle (d : DSt) (line : String) : DSt × String :=
   match (line.splitOn " ").filter (· ≠ "") with
@@ -249,6 +270,14 @@ def handle (d : DSt) (line : String) : DSt × String :=
   | ["requeue", k] =>
     match k.toNat? with
     | some k => doStep d (.userQueue k)
+    | none => (d, "bad-op")
+  | ["begin", k, m, ph] =>
+    match k.toNat?, userCall m, parsePhase ph with
+    | some k, some c, some ph => doStep d (.beginCall k c ph)
+    | _, _, _ => (d, "bad-op")
+  | ["end", k] =>
+    match k.toNat? with
+    | some k => doStep d (.endCall k)
     | none => (d, "bad-op")
   | _ => (d, "bad-op")
 
